@@ -38,6 +38,7 @@ pub struct TInterp<'c, E: TElemT> {
     pub out: Outcome,
     lawful: bool,
     panic_prop: &'static str,
+    leak_ok: bool,
 }
 
 fn hasher<E: TElemT>(e: &E) -> u64 {
@@ -69,6 +70,7 @@ impl<'c, E: TElemT> TInterp<'c, E> {
             out: Outcome::default(),
             lawful: !chaos,
             panic_prop: if chaos { "C05" } else { "C02" },
+            leak_ok: false,
         }
     }
 
@@ -815,7 +817,9 @@ impl<'c, E: TElemT> TInterp<'c, E> {
         let n = (a[0] % 5) as usize;
         let keys: Vec<(u32, u64)> = (0..n).map(|i| self.key(a[1 + i])).collect();
         // a[5]: equality mode. 0 = exact (id, hash); 1 = by id only (may match several entries)
-        let by_id_only = a[5] % 2 == 1;
+        // (differential runs use exact closures only: which of several matching entries an id-only
+        // closure resolves to may legitimately differ between the scanner back-ends)
+        let by_id_only = a[5] % 2 == 1 && self.case.h("nodup") == 0;
         // the entry each request resolves to cannot be predicted when several entries match; the
         // oracle is stated on what came back: same address twice => must have panicked.
         let mut present_exact: Vec<Vec<usize>> = Vec::new();
@@ -853,10 +857,14 @@ impl<'c, E: TElemT> TInterp<'c, E> {
                         }
                     });
                     r.into_iter()
-                        .map(|o| {
+                        .enumerate()
+                        .map(|(i, o)| {
                             o.map(|e| {
                                 e.check("get_many_mut element");
-                                (e as *mut E as usize, e.uid(), e.payload())
+                                let old = e.payload();
+                                // write a distinct sentinel through every returned reference
+                                e.set_payload(0x5E47_0000 + i as u64);
+                                (e as *mut E as usize, e.uid(), old)
                             })
                         })
                         .collect()
@@ -924,8 +932,14 @@ impl<'c, E: TElemT> TInterp<'c, E> {
                         }
                     }
                 }
-                // write distinct sentinels through the references obtained in a second call is not
-                // possible (the borrow ended); the first call's addresses were checked for distinctness.
+                // the sentinels written through the references must have landed in exactly those entries
+                for (i, r) in res.iter().enumerate() {
+                    if let Some((_, uid, _)) = r {
+                        if let Some(mi) = self.model.iter().position(|m| m.uid == *uid) {
+                            self.model[mi].payload = 0x5E47_0000 + i as u64;
+                        }
+                    }
+                }
             }
         }
         Ok(())
@@ -983,7 +997,7 @@ impl<'c, E: TElemT> TInterp<'c, E> {
         }
         let st = alloc::stats();
         let exp = if d.is_singleton { 0 } else { 1 };
-        if st.n_live != exp {
+        if st.n_live != exp && !(self.leak_ok && st.n_live >= exp) {
             bad!("C03", "block-accounting", "ledger holds {} blocks, the table owns {exp}", st.n_live);
         }
         alloc::check_zones(false);
@@ -1003,10 +1017,15 @@ impl<'c, E: TElemT> TInterp<'c, E> {
     }
 
     pub fn step(&mut self, step: usize, op: &Op) -> Result<(), Violation> {
+        if self.case.header.get("fault_step").copied() == Some(step as u64) {
+            return self.faulted_step(step, op);
+        }
         alloc::begin_op();
         let before = Self::dump_of(&self.table);
         world::clear_panic_messages();
+        let counts0 = world::counts();
         let r = catch_unwind(AssertUnwindSafe(|| self.exec(op)));
+        let counts1 = world::counts();
         match r {
             Err(payload) => {
                 let msg = world::last_panic_message().unwrap_or_else(|| "<no message>".into());
@@ -1049,7 +1068,125 @@ impl<'c, E: TElemT> TInterp<'c, E> {
         }
         let after = Self::dump_of(&self.table);
         let clear_like = matches!(op.code, ops::CLEAR | ops::DRAIN | ops::CLONE_SWAP) || (op.code == ops::ITER && op.a[0] % 3 == 2);
-        self.labels |= dump::transition_labels(&before, &after, clear_like);
+        let tl = dump::transition_labels(&before, &after, clear_like);
+        self.labels |= tl;
+        if self.case.h("trace") != 0 {
+            let mut d = [0u64; world::NCLASS];
+            for i in 0..world::NCLASS {
+                d[i] = counts1[i] - counts0[i];
+            }
+            self.out.per_step.push((tl, d));
+        }
+        Ok(())
+    }
+
+    /// C04 on the HashTable API: the k-th invocation of a callback class panics during this step.
+    pub fn faulted_step(&mut self, step: usize, op: &Op) -> Result<(), Violation> {
+        let class = Class::from_usize(self.case.h("fault_class") as usize).unwrap_or(Class::Hash);
+        let k = self.case.h("fault_k");
+        let snap = |t: &Table<E>| -> Vec<(u64, Option<u64>)> {
+            let _q = Quiet::new();
+            let mut v: Vec<(u64, Option<u64>)> = t.iter().map(|e| (e.uid(), e.serial())).collect();
+            v.sort_unstable();
+            v
+        };
+        let pre = snap(&self.table);
+        let pre_dump = Self::dump_of(&self.table);
+        let serials_before = world::n_serials();
+        let stats_before = alloc::stats();
+        alloc::begin_op();
+        world::clear_panic_messages();
+        if k > 0 {
+            world::arm_fault(class, k);
+        }
+        let r = catch_unwind(AssertUnwindSafe(|| self.exec(op)));
+        let fired = world::disarm_fault();
+        let relabel = |v: Violation| Violation { property: "C04", kind: format!("after-panic:{}", v.kind), ..v };
+        match r {
+            Ok(Ok(())) => {
+                return self.check_state().map_err(|b| {
+                    let v = self.to_violation(step, b);
+                    if fired { relabel(v) } else { v }
+                });
+            }
+            Ok(Err(b)) => {
+                let v = self.to_violation(step, b);
+                return Err(if fired { relabel(v) } else { v });
+            }
+            Err(payload) => {
+                let injected = payload.downcast_ref::<Injected>().is_some();
+                drop(payload);
+                if !injected {
+                    let msg = world::last_panic_message().unwrap_or_else(|| "<no message>".into());
+                    return Err(Violation { property: if fired { "C04" } else { self.panic_prop }, kind: "unexpected-panic".into(), step, detail: format!("HashTable operation panicked with a foreign payload (fault fired: {fired}): {msg}") });
+                }
+            }
+        }
+        self.out.count("faults_fired", 1);
+        self.labels |= dump::L_FAULT_UNWOUND;
+        let st = alloc::stats();
+        let grew = st.n_alloc > stats_before.n_alloc;
+        if grew {
+            self.labels |= dump::L_FAULT_GROWTH;
+        }
+        if class == Class::Hash && !grew && pre_dump.n_deleted() > 0 && pre_dump.growth_left == 0 {
+            self.labels |= dump::L_FAULT_REHASH;
+        }
+        if class != Class::Hash {
+            self.labels |= dump::L_FAULT_OTHER;
+        }
+        let mk = |kind: &str, detail: String| Violation { property: "C04", kind: kind.to_string(), step, detail };
+        if let Some(v) = world::take_violation() {
+            return Err(relabel(v));
+        }
+        let d = Self::dump_of(&self.table);
+        if let Err(b) = d.validate(true) {
+            return Err(mk(&format!("after-panic:{}", b.1), format!("HashTable, class {:?} k {k}: {}", class, b.2)));
+        }
+        let now = snap(&self.table);
+        if now.len() != self.table.len() {
+            return Err(mk("after-panic:len-vs-iter", format!("len() {} but iter() yields {}", self.table.len(), now.len())));
+        }
+        {
+            let _q = Quiet::new();
+            for e in self.table.iter() {
+                e.check("post-panic element");
+                if self.table.find(e.hash(), |x| x.uid() == e.uid()).is_none() {
+                    return Err(mk("after-panic:yielded-element-not-found", format!("iter() yields uid {} that find() with its hash does not return", e.uid())));
+                }
+            }
+        }
+        for (uid, ser) in &now {
+            let known = pre.iter().any(|p| p.0 == *uid) || ser.map_or(true, |x| x >= serials_before) || !E::TRACKED;
+            if !known {
+                return Err(mk("after-panic:foreign-element", format!("uid {uid} is neither pre-existing nor handed in by this operation")));
+            }
+        }
+        if E::TRACKED && !class.is_drop() {
+            for (uid, ser) in &pre {
+                if let Some(ser) = ser {
+                    if !now.iter().any(|n| n.1 == Some(*ser)) && world::elem_state(*ser) == Some(world::ElemState::Live) {
+                        return Err(mk("after-panic:element-lost-not-dropped", format!("element uid {uid} serial {ser} left the table but was never dropped")));
+                    }
+                }
+            }
+        }
+        let single_growth = matches!(op.code, ops::INSERT_UNIQUE | ops::ENTRY | ops::RESERVE | ops::TRY_RESERVE | ops::SHRINK_TO | ops::SHRINK_TO_FIT | ops::INSERT_DUP);
+        if class == Class::Hash && grew && single_growth && now != pre {
+            return Err(mk("hash-panic-during-growth-changed-contents", format!("{} elements before, {} after a hasher panic while growing into a new allocation", pre.len(), now.len())));
+        }
+        let exp = if d.is_singleton { 0 } else { 1 };
+        if !class.is_drop() && st.n_live != exp {
+            return Err(mk("after-panic:block-leaked", format!("ledger holds {} blocks, the table owns {exp}", st.n_live)));
+        }
+        if class.is_drop() {
+            self.leak_ok = true;
+        }
+        self.resync();
+        alloc::check_zones(false);
+        if let Some(v) = world::take_violation() {
+            return Err(relabel(v));
+        }
         Ok(())
     }
 
@@ -1078,6 +1215,9 @@ impl<'c, E: TElemT> TInterp<'c, E> {
             return (out, Some(v));
         }
         let st = alloc::stats();
+        if self.leak_ok {
+            return (out, None);
+        }
         if st.n_live != 0 {
             return (out, Some(Violation { property: "C03", kind: "block-leaked".into(), step, detail: format!("{} blocks still allocated after the table was dropped", st.n_live) }));
         }
